@@ -675,6 +675,14 @@ func c20d(c *Ctx) {
 					listT = c.term(fn, mem.site.Common().Args[k])
 				}
 			}
+			// (a list gathered in a local that ends up in the program's field counts as that field)
+			for _, fld := range []string{"Texts", "TopLevelStatements"} {
+				for _, st := range storesToField(fn, "ast", "Program", fld) {
+					if t := c.term(fn, st.Val); listT != "" && (t == listT || verRe.ReplaceAllString(t, "") == verRe.ReplaceAllString(listT, "")) {
+						listT = listT + " (." + fld + ")"
+					}
+				}
+			}
 			switch {
 			case strings.HasSuffix(key, ".Name") && strings.Contains(listT, ".Texts"):
 				nText++
@@ -704,12 +712,12 @@ func c20d(c *Ctx) {
 				c.Check(!bypass, name+"/text-names/not-bypassed", pos, "no successful return without the text clash check", "ParseProgram can return successfully without having run the text name clash check (whether a clash is reported would depend on what else is in the file)")
 				c.Check(after, name+"/text-names/after-hoisting", pos, "the clash check runs after all statements were parsed (all hoisted texts exist)", "the text clash check can run before parsing is complete")
 				okInline, okExplicit := false, false
-				for _, st := range storesToField(fn, "ast", "Program", "Texts") {
-					v := c.term(fn, st.Val)
-					if strings.Contains(v, "$0.inlineTexts") && canReach(st, at) {
+				for _, st := range fieldFeeds(fn, "ast", "Program", "Texts") {
+					v := c.term(fn, st.val)
+					if strings.Contains(v, "$0.inlineTexts") && canReach(st.at, at) {
 						okInline = true
 					}
-					if strings.Contains(v, "new#") && strings.Contains(v, "ast.Text") && canReach(st, at) && !canReach(at, st) {
+					if strings.Contains(v, "new#") && strings.Contains(v, "ast.Text") && canReach(st.at, at) && !canReach(at, st.at) {
 						okExplicit = true
 					}
 				}
@@ -742,12 +750,12 @@ func c20d(c *Ctx) {
 				c.Check(!bypass, name+"/movement-names/not-bypassed", pos, "no successful return without the movement clash check", "ParseProgram can return successfully without having run the movement name clash check (whether a clash is reported would depend on what else is in the file)")
 				c.Check(after, name+"/movement-names/after-hoisting", pos, "the clash check runs after all statements were parsed", "the movement clash check can run before parsing is complete")
 				okInline := false
-				for _, st := range storesToField(fn, "ast", "Program", "TopLevelStatements") {
-					if canReach(st, at) && !canReach(at, st) {
-						for _, e := range appendElems(st.Val) {
+				for _, st := range fieldFeeds(fn, "ast", "Program", "TopLevelStatements") {
+					if canReach(st.at, at) && !canReach(at, st.at) {
+						for _, e := range appendElems(st.val) {
 							if strings.Contains(c.term(fn, e), "$0.inlineMovements") {
 								okInline = true
-								if w, skip := loopSkip(fn, st); skip {
+								if w, skip := loopSkip(fn, st.at); skip {
 									c.Bad(name+"/movement-names/every-hoisted-movement", c.W.Pos(st.Pos()), "some hoisted movements are not added to the program (an iteration can reach "+c.nearPos(w)+" without the append): the label a command refers to would never be defined")
 								} else {
 									c.OK(name+"/movement-names/every-hoisted-movement", c.W.Pos(st.Pos()), "every hoisted movement is added to the program")
